@@ -172,7 +172,7 @@ def hostile_payloads() -> List[tuple]:
 
 # ---- history in a FRESH interpreter: trace(B | nothing ran before) = trace(B | A1, A2, ... ran before) ----------
 _T = {"t": "absent", "v": 0, "items": [], "bt": "", "d": 0}
-_CTX = {"a": {**_T, "t": "n", "v": 3}, "factor": {**_T, "t": "n", "v": 2}, "addend": _T, "value": _T, "b": _T, "w": _T}
+_CTX = {"a": {**_T, "t": "n", "v": 3}, "factor": {**_T, "t": "n", "v": 2}, "a_list": {**_T, "t": "l", "items": [1, 2]}, "addend": _T, "value": _T, "b": _T, "w": _T}
 _NODATA = {"ty": "none", "v": 0, "items": []}
 
 
@@ -207,6 +207,15 @@ def history_jobs() -> List[Dict[str, Any]]:
     job("sweep-op:cosmetic-twin", [src("t"), mul("1 + t")], [[src("t"), mul("t+1")], [src("(t)"), mul("t + 1")]])
     job("sweep-probe:cosmetic-twin", [{"processor": "FloatValueDataSource", "parameters": {"value": 2.0}}, prb("t * 3")],
         [[{"processor": "FloatValueDataSource", "parameters": {"value": 2.0}}, prb("3*t")]])
+    # same generated class name, different inputs: a sweep of one element over literal values / over a context
+    # sequence; two templates writing one key from different placeholders; dotted vs underscored rename keys
+    ctxsweep = lambda e: {"processor": "FloatValueDataSource", "derive": {"parameter_sweep": {
+        "parameters": {"value": e}, "variables": {"t": {"from_context": "a_list"}}, "collection": "FloatDataCollection"}}}
+    job("sweep-src:values-after-from-context", [src("2 * t")], [[ctxsweep("2 * t")]])
+    job("sweep-src:from-context-after-values", [ctxsweep("2 * t")], [[src("2 * t")]])
+    job("template:same-output-key", [plain[0], {"processor": 'template:"x={a}":w'}],
+        [[plain[0], {"processor": 'template:"y={factor}-{a}":w'}]])
+    job("rename:sanitised-name-collision", [plain[0], {"processor": "rename:a:b_c"}], [[plain[0], {"processor": "rename:factor:b.c"}]])
     job("plain:near-miss", plain, [plain2, [src("2 * t")]])
     job("plain:after-sweeps", plain2, [[src("t"), mul("t")], plain])
     return jobs
